@@ -11,6 +11,7 @@ from . import model as M
 from .model import Obj
 
 class Unsupported(Exception): pass
+_BI_IDS = {id(getattr(builtins, n)): n for n in ('isinstance', 'issubclass', 'len', 'iter', 'next', 'getattr', 'bool', 'type', 'callable', 'tuple', 'all', 'any', 'list', 'set', 'sorted', 'sum', 'min', 'max', 'frozenset')}
 
 # ---------------------------------------------------------------- values
 class V: pass
@@ -174,9 +175,7 @@ class Exec:
         return []
     def wrap(self, o):
         if isinstance(o, V): return o
-        if isinstance(o, bool): return VBool(z3.BoolVal(o))
-        if isinstance(o, int): return VPy(o)   # keep identity (literal objects); as_int converts on demand
-        return VPy(o)
+        return VPy(o)   # keep identity (literal objects, incl. True/1); as_int / truth convert on demand
     def e_NamedExpr(self, n, st):
         return [(s.set(n.target.id, v), v) for s, v in self.eval(n.value, st)]
     def e_BoolOp(self, n, st):
@@ -353,7 +352,7 @@ class Exec:
         if cm is not None: return cm(self, s, f, args, kwargs, where)
         if isinstance(f, VPy):
             o = f.o
-            h = self.BUILTINS.get(getattr(o, '__name__', None)) if o in (isinstance, issubclass, len, iter, next, getattr, hasattr, bool, type, id, callable, tuple, all, any, list, set, sorted, sum, min, max, frozenset, repr, str, int) else None
+            h = self.BUILTINS.get(_BI_IDS.get(id(o)))
             if h: return h(self, s, args, kwargs, where)
             if isinstance(o, types.FunctionType) and self.inline_repo_funcs and self.is_repo_func(o):
                 return self.inline(s, o, args, kwargs, where)
@@ -502,6 +501,10 @@ class Exec:
             ot = self.obj(args[0]); nm = self.uni.const(args[1].o)
             outs = []
             for s2, has in self.fork(s, M.hasattr_(ot, nm)):
+                if has and isinstance(args[2], VPy):
+                    # assumption (listed in the evidence): an attribute value is never the private default/sentinel object itself
+                    self.assumptions.add('no attribute value is the private sentinel passed as getattr() default')
+                    s2 = s2.assume(M.attr(ot, nm) != self.obj(args[2]))
                 outs.append((s2.eff('getattr', ot, args[1].o), VObj(M.attr(ot, nm)) if has else args[2]))
             return outs
         raise Unsupported('getattr form: ' + where)
